@@ -30,4 +30,9 @@ Definition argmax_arg (len : N) : N := 8 + len + 1.
 Definition argmax_args (l : list N) : N := fold_right (fun len s => argmax_arg len + s) 0 l.
 Definition argmax_budget (arg_max : N) (env : list (N * N)) (prog : N) (fixed : list N) : N :=
   arg_max - (argmax_env env + 8 + argmax_arg prog + 8 + 4096 + 2048) - argmax_args fixed.
+(* MultiExecMatcher (exec.rs) adds a path only while a reserve of FILE_NAME_MAX - ARGMAX_SLACK bytes would still fit as one
+   more argument: room for what the kernel charges for the file name and a "#!" line beyond argmax's own slack *)
+Definition find_reserve : N := 2 * 4096 + 256 - (4096 + 2048).
+Definition find_budget (arg_max : N) (env : list (N * N)) (prog : N) (fixed : list N) : N :=
+  argmax_budget arg_max env prog fixed - argmax_arg find_reserve.
 Definition argmax_single : N := 131071.      (* arg.len() > 32 * PAGE_SIZE - 1 is refused *)
